@@ -181,12 +181,15 @@ def formatter_level(check, P):
                 continue
             sv = I.as_str(path.value)
             if sv is None:
-                check.violation("R1", f"style:{sym}:opaque", f"comment() returns {path.value!r} for style {sym!r}: provenance lost", d)
+                check.undecided("R1", f"comment() returns {path.value!r} for style {sym!r}: the analysis lost track of how it is built")
                 continue
             parts = list(sv.parts)
             texts = [p for p in parts if isinstance(p, Text)]
             lits = [p.text for p in parts if isinstance(p, Lit)]
             lost = [p for p in parts if not isinstance(p, Lit) and not (isinstance(p, Text) and p.name == "arg.text") and "arg.text" in repr(p)]
+            if not lost:
+                # the result of a call the analysis does not model stands where the text should be
+                lost = [p for p in parts if isinstance(p, StrOf) and isinstance(p.value, Unk) and p.value.typ == "ext"]
             if lost:
                 check.undecided("R1", f"style {sym!r}: the comment text is {repr(lost[0])[:120]}: an operation on the caller's text that the analysis does not model")
                 continue
